@@ -75,6 +75,17 @@ def conc_cfg(r):
            "services": svcs}
     if decs:
         cfg["decorators"] = decs
+    # whatever the repair above left: a service declared shared that still reaches a contextual one (through a chain of services without a
+    # declared scope, a tag, a decorator) loses its declaration (it is then contextual by inference) - the configurations must be accepted
+    from vlib import spec as _spec
+    for _ in range(8):
+        pairs = _spec.output_violations(cfg)[0]
+        if not pairs:
+            break
+        for a_, _b in pairs:
+            cfg["services"][a_].pop("scope", None)
+            if a_ in scopes:
+                scopes[a_] = (None, scopes[a_][1])
     return cfg, scopes
 
 
